@@ -16,7 +16,8 @@ import ast
 from ..model import (walk, dotted, call_name, kwarg, unparse, short, UNKNOWN,
                      root_name, AnalysisError, calls_in, stores_in_target)
 from ..cfg import cfg_of
-from ..flow import guards, must_pass, loop_slice, Exploration
+from ..flow import (guards, must_pass, loop_slice, Exploration, Deps,
+                    reaching_defs)
 from .. import idioms as I
 
 UNK = UNKNOWN
@@ -511,6 +512,19 @@ class Interp:
                 except TypeError:
                     return UNK
             return UNK
+        if isinstance(fn, ast.Name) and fn.id == 'dict' and c.keywords and \
+                len(c.args) <= 1 and all(k.arg for k in c.keywords) and \
+                not any(isinstance(a, ast.Starred) for a in c.args):
+            # dict(<mapping>, key=value, ..): a copy with entries added
+            out = {}
+            if c.args:
+                base = self.ev(f, c.args[0], env)
+                if not isinstance(base, dict):
+                    return UNK
+                out = dict(base)
+            for k in c.keywords:
+                out[k.arg] = self.ev(f, k.value, env)
+            return out
         if isinstance(fn, ast.Name) and fn.id in _BUILTINS and \
                 not c.keywords:
             args = [unsym(self.ev(f, a, env)) for a in c.args]
@@ -2556,6 +2570,193 @@ def r14_10(prog, rep, rid='R14.10'):
 
 
 # ------------------------------------------------------------------------------
+# R14.12  one record per pilot.  The scheduler keeps one dict per pilot in
+# self._pilots and changes it in place (`self._pilots[pid]['state'] = ..`).
+# What R14.10 evaluates for one record only holds when the records of two
+# pilots are two objects: a value stored as the record of a key that varies
+# with a loop must be created in the iteration that stores it (a dict display,
+# a copying constructor, a helper that returns one) - not one object defined
+# in front of the loop (or kept in an attribute) and stored for every pilot.
+#
+_FRESH_CALLS = ('dict', 'copy.deepcopy', 'copy.copy', 'deepcopy',
+                'ru.Config', 'ru.TypedDict', 'collections.defaultdict',
+                'defaultdict', 'OrderedDict', 'collections.OrderedDict')
+
+
+def _fresh_value(prog, f, g, smap, e, at, loop, cls, depth=0):
+    """True: e, evaluated at cfg node `at`, is an object made in the running
+    iteration of `loop` (a cfg node id); False: it is one object for all
+    iterations; None: cannot be told.  Second value: the expression / node
+    that decides"""
+    if depth > 4:
+        return None, e
+    if isinstance(e, (ast.Dict, ast.DictComp)):
+        return True, e
+    if isinstance(e, ast.IfExp):
+        a = _fresh_value(prog, f, g, smap, e.body, at, loop, cls, depth + 1)
+        b = _fresh_value(prog, f, g, smap, e.orelse, at, loop, cls, depth + 1)
+        for r in (a, b):
+            if r[0] is False:
+                return r
+        return (True, e) if a[0] and b[0] else (None, e)
+    if isinstance(e, ast.Call):
+        cn = call_name(e)
+        if cn in _FRESH_CALLS:
+            return True, e
+        if isinstance(e.func, ast.Attribute) and e.func.attr in (
+                'copy', 'as_dict') and not e.args:
+            return True, e
+        try:
+            callee = prog.resolve_call(f, e, cls)
+        except Exception:
+            callee = None
+        if callee is not None and depth < 3:
+            rets = [n for n in walk(callee.node) if isinstance(n, ast.Return)]
+            if not rets or any(r.value is None for r in rets):
+                return None, e
+            cg = cfg_of(callee)
+            cmap = I.stmt_node_map(cg)
+            res = []
+            for r in rets:
+                rn = cmap.get(id(r))
+                if rn is None:
+                    return None, e
+                # in the callee nothing is `in front of the loop`: a value is
+                # fresh when it is made by the call
+                res.append(_fresh_value(prog, callee, cg, cmap, r.value,
+                                        rn.id, None, callee.cls or cls,
+                                        depth + 1)[0])
+            if all(x is True for x in res):
+                return True, e
+            if any(x is False for x in res):
+                return False, e
+        return None, e
+    if isinstance(e, ast.Attribute) and isinstance(e.value, ast.Name) and \
+            e.value.id == 'self':
+        return False, e               # one object kept by the component
+    if isinstance(e, ast.Name):
+        if e.id in f.params:
+            return None, e
+        defs = reaching_defs(g, e.id, at)
+        if not defs:
+            return None, e
+        verdict = True
+        for dn, v in defs:
+            if v is None:
+                return None, e
+            r, why = _fresh_value(prog, f, g, smap, v, dn.id, loop, cls,
+                                  depth + 1)
+            if r is None:
+                return None, e
+            if r is False:
+                return False, why
+            if loop is not None and loop not in dn.loops:
+                # made once, in front of the loop
+                return False, dn.ast
+        return verdict, e
+    return None, e
+
+
+def r14_12(prog, rep, rid='R14.12'):
+    rep.rule(rid, 'the task manager scheduler keeps one record object per '
+             'pilot: a value stored as self._pilots[<key that varies with a '
+             'loop>] is made in the iteration that stores it (records are '
+             'changed in place, so a shared one leaks the state of one pilot '
+             'into the others)', minimum=2)
+    sc = prog.cls(*TSCHED)
+    ATTR = 'self._pilots'
+    classes = [sc] + [c for c in prog.subclasses(sc) if c is not sc]
+    inplace = None
+    sites = []
+    for c in classes:
+        methods = dict(c.methods)
+        al = I.Aliases(prog, c, methods, ATTR)
+        for mname, f in sorted(methods.items()):
+            for kind, target, stmt in I.stores(f.node, nested=True):
+                if not isinstance(target, ast.Subscript) or \
+                        isinstance(target.slice, ast.Slice):
+                    continue
+                # a store into a record (not into the table): the record is
+                # named in place or through a local / helper result that
+                # refers to it
+                if kind in ('assign', 'aug') and \
+                        unparse(target.value) != ATTR and \
+                        al.is_rooted_expr(mname, target.value):
+                    inplace = inplace or (f, stmt)
+                if kind == 'assign' and unparse(target.value) == ATTR and \
+                        isinstance(stmt, ast.Assign):
+                    sites.append((c, f, target.slice, stmt.value, stmt))
+            for call in calls_in(f.node):
+                if isinstance(call.func, ast.Attribute) and \
+                        call.func.attr == 'setdefault' and \
+                        unparse(call.func.value) == ATTR and \
+                        len(call.args) == 2 and not call.keywords:
+                    sites.append((c, f, call.args[0], call.args[1], call))
+    if inplace is None:
+        rep.info(rid, sc, 'no method changes a record of %s in place: '
+                 'shared records would not leak state (not decided)' % ATTR)
+        return
+    n = 0
+    for c, f, key, value, stmt in sites:
+        g = cfg_of(f)
+        smap = I.stmt_node_map(g)
+        node = smap.get(id(stmt))
+        if node is None:
+            continue
+        dd = Deps(f.node, implicit=False)
+        kdep = dd.expr_depends(key)
+        loop = None
+        for h in node.loops:
+            hn = g.nodes[h]
+            if hn.kind == 'for' and \
+                    kdep & set(stores_in_target(hn.ast.target)):
+                loop = h
+        if loop is None and not kdep & {p for p in f.params if p != 'self'}:
+            continue          # one fixed key: one record
+        n += 1
+        rep.saw(f)
+        # (no loop: the key is what the method is called with - the record
+        # has to be made by the call)
+        scope = 'the running iteration of `for %s in %s`' % (
+            short(g.nodes[loop].ast.target, 20),
+            short(g.nodes[loop].ast.iter, 30)) if loop is not None \
+            else 'the running call of %s' % f.qual
+        ok, why = _fresh_value(prog, f, g, smap, value, node.id, loop, c)
+        if ok is None:
+            raise AnalysisError('UNRECOGNISED-IDIOM %s: cannot tell whether '
+                                '`%s` stores a record made in %s (%s)'
+                                % (f.where, short(stmt, 60), scope,
+                                   short(why, 40)))
+        rep.check(ok, rid, f, '%s: `%s` stores a record made in %s'
+                  % (f.qual, short(stmt, 50), scope),
+                  construct='shared record %s' % short(value, 40),
+                  message='%s: `%s` is reached with a different %s in %s, but '
+                  'stores one and the same object every time (`%s`: made '
+                  'once in front of the loop or kept outside of it) as the '
+                  'record of that pilot, and the '
+                  'records are changed in place (`%s` in %s): all pilots '
+                  'that become known in one bulk share one record - the '
+                  'state recorded for one is read and written as the state '
+                  'of the others, so the recorded state of a pilot moves '
+                  'with its siblings (backwards for the scheduler\'s view of '
+                  'that pilot, and into a final state it never reached)'
+                  % (f.qual, short(stmt, 60), short(key, 20),
+                     scope.replace('the running', 'every'),
+                     short(why, 60), short(inplace[1], 50), inplace[0].qual),
+                  loc=f.loc(stmt),
+                  history='one bulk [{p1: PMGR_LAUNCHING}, {p2: PMGR_ACTIVE}] '
+                  'with both pilots unknown so far: p1 and p2 get the same '
+                  'record, which says PMGR_ACTIVE for both; p1: '
+                  'PMGR_ACTIVE_PENDING is dropped as late and the scheduler '
+                  'is never told; p2 ends DONE: p1 is recorded DONE as well '
+                  '(a FAILED p1 is even `corrected` to DONE)')
+    if not n:
+        raise AnalysisError('UNRECOGNISED-IDIOM %s: no store of a record '
+                            '`%s[<key of a loop>] = ..` found in the '
+                            'scheduler classes' % (sc.where, ATTR))
+
+
+# ------------------------------------------------------------------------------
 # R14.3  final cause is not killed
 #
 def cause_defs(prog, agent):
@@ -3588,8 +3789,9 @@ def r14_6(prog, rep, rid='R14.6'):
     rep.rule(rid, 'PilotManager._state_sub_cb hands every thing of type pilot '
              'of a notification to _update_pilot: the loop covers all things, '
              'every pilot path calls _update_pilot, and the loop is not left '
-             'on the result of a callee that returns no value nor '
-             'unconditionally after an update', minimum=4)
+             'on the result of a callee that returns no value, nor '
+             'unconditionally after an update, nor for a thing of another '
+             'type on a test of nothing but that thing', minimum=5)
     pm = prog.cls(*PMGR)
     f = prog.method(PMGR[0], PMGR[1], '_state_sub_cb')
     rep.saw(f)
@@ -3616,8 +3818,20 @@ def r14_6(prog, rep, rid='R14.6'):
             "{'cmd': 'update', 'arg': [p1, p2]} message)")
 
     # pilot-type atoms --------------------------------------------------------
-    def classify(a, var):
-        """True / False: value of the atom for a thing of type pilot"""
+    def type_read(x, var, depth=0):
+        """x is the type entry of the thing held by `var` (read in place or
+        through a local assigned once)"""
+        if unparse(x) in ("%s['type']" % var, "%s.get('type')" % var,
+                          "%s.get('type', None)" % var):
+            return True
+        if isinstance(x, ast.Name) and depth < 3 and x.id not in f.params:
+            ds = _defs(f, x.id)
+            return len(ds) == 1 and ds[0][2] is None and \
+                type_read(ds[0][1], var, depth + 1)
+        return False
+
+    def classify(a, var, kind='pilot'):
+        """True / False: value of the atom for a thing of type `kind`"""
         if isinstance(a, ast.Compare) and len(a.ops) == 1:
             l, r, op = a.left, a.comparators[0], a.ops[0]
             if isinstance(op, (ast.In, ast.NotIn)) and \
@@ -3626,11 +3840,15 @@ def r14_6(prog, rep, rid='R14.6'):
                 return isinstance(op, ast.In)
             if isinstance(op, (ast.Eq, ast.NotEq)):
                 for x, y in ((l, r), (r, l)):
-                    if unparse(x) in ("%s['type']" % var,
-                                      "%s.get('type')" % var) and \
-                            isinstance(y, ast.Constant):
-                        same = y.value == 'pilot'
+                    if type_read(x, var) and isinstance(y, ast.Constant):
+                        same = y.value == kind
                         return same if isinstance(op, ast.Eq) else not same
+            if isinstance(op, (ast.In, ast.NotIn)) and \
+                    type_read(l, var) and \
+                    isinstance(r, (ast.List, ast.Tuple, ast.Set)) and \
+                    all(isinstance(x, ast.Constant) for x in r.elts):
+                same = kind in [x.value for x in r.elts]
+                return same if isinstance(op, ast.In) else not same
         return None
 
     def local_predicate(c):
@@ -3669,28 +3887,36 @@ def r14_6(prog, rep, rid='R14.6'):
             return None
         return ps[0], body[0].value
 
-    def holds(cond, var, depth=0):
+    def holds(cond, var, depth=0, kind='pilot'):
         """True / False / None: value of a condition for a thing of type
-        pilot held by `var`"""
+        `kind` held by `var`"""
         if depth > 4:
             return None
         if isinstance(cond, ast.BoolOp):
-            vals = [holds(x, var, depth) for x in cond.values]
+            vals = [holds(x, var, depth, kind) for x in cond.values]
             if isinstance(cond.op, ast.And):
                 return False if False in vals else (
                     True if all(v is True for v in vals) else None)
             return True if True in vals else (
                 False if all(v is False for v in vals) else None)
         if isinstance(cond, ast.UnaryOp) and isinstance(cond.op, ast.Not):
-            v = holds(cond.operand, var, depth)
+            v = holds(cond.operand, var, depth, kind)
             return None if v is None else not v
         if isinstance(cond, ast.Call) and len(cond.args) == 1 and \
                 not cond.keywords and unparse(cond.args[0]) == var:
             lp = local_predicate(cond)
             if lp is not None:
-                return holds(lp[1], lp[0], depth + 1)
+                return holds(lp[1], lp[0], depth + 1, kind)
             return None
-        return classify(cond, var)
+        if isinstance(cond, ast.Name) and depth < 4 and cond.id != var:
+            ds = _defs(f, cond.id)
+            if len(ds) == 1 and ds[0][2] is None and \
+                    cond.id not in f.params and \
+                    isinstance(ds[0][1], (ast.Compare, ast.BoolOp,
+                                          ast.UnaryOp)):
+                return holds(ds[0][1], var, depth + 1, kind)
+            return None
+        return classify(cond, var, kind)
 
     # (1) the loop covers every thing of the message ---------------------------
     def from_msg(e, depth=0):
@@ -3819,6 +4045,74 @@ def r14_6(prog, rep, rid='R14.6'):
               history=HIST + ': only p1 is updated; p2 stays in its old '
               'state (a bulk FAILED after a failed launch never reaches it '
               'and wait() blocks)')
+    # (3b) a thing that is no pilot does not end the loop: the state channel
+    # carries task and pilot things in one bulk; a path of an iteration that
+    # leaves the loop (return / break) for a thing of another type, decided by
+    # nothing but that thing, drops the pilot notifications behind it
+    dd = Deps(f.node, implicit=False)
+
+    def thing_only(loc, seen):
+        if loc == tv or loc.startswith(tv + '[') or loc.startswith(tv + '.'):
+            return True
+        if loc == 'self' or loc.startswith('self.') or \
+                loc.startswith('ret:') or loc in f.params:
+            return False
+        base = loc.split('[')[0].split('.')[0]
+        if base != loc:
+            return thing_only(base, seen)
+        if loc not in dd.edges:
+            return True               # module / builtin name
+        if loc in seen:
+            return True
+        seen.add(loc)
+        return all(thing_only(d, seen) for d in dd.edges[loc])
+
+    def about_thing(test):
+        return all(thing_only(x, set()) for x in dd.reads(test))
+
+    foreign_leave = None
+    for kind in ('task', '<another type>'):
+
+        def transfer_k(node, edge, st, kind=kind):
+            if edge.label == 'exc':
+                return None
+            if node.kind == 'test' and edge.label in ('T', 'F'):
+                v = holds(node.ast, tv, 0, kind)
+                if v is not None:
+                    return st if (edge.label == 'T') == v else None
+                return st if about_thing(node.ast) else 1
+            return st
+
+        exk = Exploration(g, start, 0, transfer_k, stop=stop,
+                          stop_edge=stop_edge)
+        for t in exk.terminals:
+            if t.via == 'exc' or t.state:
+                continue
+            path = exk.path(t)
+            if not path or path[-1].back and path[-1].dst == head.id:
+                continue
+            if path[-1].dst == head.id or path[-1].label == 'done':
+                continue
+            if foreign_leave is None:
+                foreign_leave = (g.nodes[path[-1].src].ast, kind,
+                                 exk.literals(t))
+    rep.check(foreign_leave is None, rid, f, 'a thing that is no pilot does '
+              'not end the loop over the things', construct=foreign_leave[0]
+              if foreign_leave else 'foreign-leave',
+              message='%s leaves the loop over the things of a notification '
+              'for a thing of type %s [%s]: every thing behind it in the same '
+              'bulk is dropped - the state channel carries task and pilot '
+              'updates in one message, so a pilot state (also a final one) '
+              'that follows a task update is never applied'
+              % ((f.qual, foreign_leave[1].strip('<>'),
+                  ' ; '.join(foreign_leave[2])) if foreign_leave
+                 else (f.qual, '', '')),
+              loc=f.loc(foreign_leave[0]) if foreign_leave else f.loc(),
+              history="one bulk {'cmd': 'update', 'arg': [task t0: "
+              "AGENT_STAGING_OUTPUT_PENDING, pilot p0: CANCELED]}: the loop "
+              'ends at t0, p0 keeps its old state for the application, its '
+              'callbacks never fire (and the tasks bound to it are never '
+              'reported FAILED)')
     # (4) contradiction rule on the whole callback
     contra = []
     for n in g.nodes:
@@ -3890,6 +4184,11 @@ def run(prog, rep, tier):
         '(R14.9); the task manager scheduler records, for every pair '
         '(recorded, notified) of table states, the later one and '
         '_update_pilot_states is the only writer of that record (R14.10); '
+        'the record stored for a pilot is an object made in the iteration / '
+        'call that stores it, so the records of two pilots are never one '
+        'object (R14.12); a thing of another type (a task update of the same '
+        'bulk) does not make the pilot manager leave its loop over the '
+        'things (R14.6); '
         'the read of the signal file in bootstrap_0.sh depends on nothing '
         'but the existence of the file (R14.11).')
     rep.undecided = ('what bootstrap_0.sh does with final_state after it is '
@@ -3919,6 +4218,11 @@ def run(prog, rep, tier):
         'R14.9 / R14.10 evaluate one notification against one known pilot '
         '(record); a lookup is taken to fail only when the dict is completely '
         'known and lacks the key, or the receiver is the None a .get returned',
+        'R14.12: a dict display, dict(..), a .copy() / copy.copy / deepcopy '
+        'call and a resolved helper all of whose returns are such make a new '
+        'object at every evaluation; a name is new in an iteration when '
+        'every definition that reaches the store is such a value assigned '
+        'inside the loop; self.<attr> is one object for all',
     ]
     rep.attempt(r14_1, prog, rep)
     by_value = bool(rep.attempt(r14_7, prog, rep))
@@ -3926,6 +4230,7 @@ def run(prog, rep, tier):
     rep.attempt(r14_2, prog, rep, tier=tier, by_value=by_value,
                 unknown_by_value=unknown_by_value)
     rep.attempt(r14_10, prog, rep)
+    rep.attempt(r14_12, prog, rep)
     defs = rep.attempt(r14_3, prog, rep)
     writes = rep.attempt(r14_4_5, prog, rep, defs)
     if writes:
@@ -4443,3 +4748,117 @@ def _foreign_corpus(tags):
 # that returns them by reference; C13-r8: lazy generator filter with a nested
 # predicate in _state_sub_cb, cached pilot in _update_pilot
 SILENT += _foreign_corpus(['C12-r6', 'C13-r8'])
+
+
+# ------------------------------------------------------------------------------
+# round 5: R14.12 (one record object per pilot in the tmgr scheduler) and the
+# extension of R14.6 (a thing that is no pilot does not end the loop)
+#
+_REC_U = ("                if pid not in self._pilots:\n"
+          "                    self._pilots[pid] = {'role'  : None,\n"
+          "                                         'state' : None,\n"
+          "                                         'pilot' : None,\n"
+          "                                         'info'  : dict()  # scheduler private info\n"
+          "                                         }\n")
+_REC_A = ("                    else:\n"
+          "                        self._pilots[pid] = {'role'  : None,\n"
+          "                                             'state' : None,\n"
+          "                                             'pilot' : None,\n"
+          "                                             'info'  : dict()\n"
+          "                                            }\n")
+_TOUPD = "        to_update = list()\n\n        with self._pilots_lock:\n"
+_THING_LOOP = "        for thing in things:\n\n            if 'type' in thing and thing['type'] == 'pilot':\n"
+
+MUTATIONS += [
+    dict(name='R14.12 seed C14-h5: the record of a new pilot hoisted out of the loop and shared',
+         rules=('R14.12',), edits=[
+        (_T, _TOUPD, "        to_update = list()\n"
+                     "        unknown   = {'role': None, 'state': None, 'pilot': None, 'info': dict()}\n\n"
+                     "        with self._pilots_lock:\n"),
+        (_T, _REC_U, "                if pid not in self._pilots:\n"
+                     "                    self._pilots[pid] = unknown\n")]),
+    dict(name='R14.12 the same at the sibling site: add_pilots shares one record among the pilots of a command',
+         rules=('R14.12',), edits=[
+        (_T, "            pilots = arg['pilots']\n\n            with self._pilots_lock:\n\n                for pilot in pilots:\n\n                    pid = pilot['uid']\n",
+             "            pilots = arg['pilots']\n"
+             "            fresh  = {'role': None, 'state': None, 'pilot': None, 'info': dict()}\n\n"
+             "            with self._pilots_lock:\n\n                for pilot in pilots:\n\n                    pid = pilot['uid']\n"),
+        (_T, _REC_A, "                    else:\n                        self._pilots[pid] = fresh\n")]),
+    dict(name='R14.12 shared template stored through setdefault', rules=('R14.12',), edits=[
+        (_T, _TOUPD, "        to_update = list()\n"
+                     "        unknown   = dict(role=None, state=None, pilot=None, info=dict())\n\n"
+                     "        with self._pilots_lock:\n"),
+        (_T, _REC_U, "                self._pilots.setdefault(pid, unknown)\n")]),
+    dict(name='R14.12 template made in the loop over the pilots reaches the store through a second name made outside',
+         rules=('R14.12',), edits=[
+        (_T, _TOUPD, "        to_update = list()\n"
+                     "        template  = {'role': None, 'state': None, 'pilot': None, 'info': dict()}\n\n"
+                     "        with self._pilots_lock:\n"),
+        (_T, _REC_U, "                if pid not in self._pilots:\n"
+                     "                    record = template\n"
+                     "                    self._pilots[pid] = record\n")]),
+    dict(name='R14.6 seed C13-h4: a task thing makes the pilot manager return from the loop',
+         rules=('R14.6',), edits=[
+        (_P, _THING_LOOP, "        for thing in things:\n\n"
+                          "            if thing.get('type') == 'task':\n"
+                          "                # task updates are handled by the tmgr\n"
+                          "                return True\n\n"
+                          "            if 'type' in thing and thing['type'] == 'pilot':\n")]),
+    dict(name='R14.6 task test held by a local, break', rules=('R14.6',), edits=[
+        (_P, _THING_LOOP, "        for thing in things:\n\n"
+                          "            is_task = thing.get('type') == 'task'\n"
+                          "            if is_task:\n"
+                          "                break\n\n"
+                          "            if 'type' in thing and thing['type'] == 'pilot':\n")]),
+    dict(name='R14.6 anything that is no pilot ends the callback', rules=('R14.6',), edits=[
+        (_P, _THING_LOOP, "        for thing in things:\n\n"
+                          "            if thing['type'] not in ['pilot']:\n"
+                          "                return True\n\n"
+                          "            if 'type' in thing and thing['type'] == 'pilot':\n")]),
+]
+
+SILENT += [
+    dict(name='R14.12 record made by a local in the iteration, then stored', edits=[
+        (_T, _REC_U, "                if pid not in self._pilots:\n"
+                     "                    record = {'role'  : None,\n"
+                     "                              'state' : None,\n"
+                     "                              'pilot' : None,\n"
+                     "                              'info'  : dict()}\n"
+                     "                    self._pilots[pid] = record\n")]),
+    dict(name='R14.12 template in front of the loop, copied per pilot', edits=[
+        (_T, _TOUPD, "        to_update = list()\n"
+                     "        template  = {'role': None, 'state': None, 'pilot': None}\n\n"
+                     "        with self._pilots_lock:\n"),
+        (_T, _REC_U, "                if pid not in self._pilots:\n"
+                     "                    self._pilots[pid] = dict(template, info=dict())\n")]),
+    dict(name='R14.12 record made by a helper method that returns a new dict', edits=[
+        (_T, _REC_U, "                if pid not in self._pilots:\n"
+                     "                    self._pilots[pid] = self._new_record()\n"),
+        (_T, "    # --------------------------------------------------------------------------\n    #\n    def _update_pilot_states(self, pilots):\n",
+             "    # --------------------------------------------------------------------------\n    #\n"
+             "    def _new_record(self):\n\n"
+             "        return {'role': None, 'state': None, 'pilot': None, 'info': dict()}\n\n\n"
+             "    # --------------------------------------------------------------------------\n    #\n    def _update_pilot_states(self, pilots):\n")]),
+    dict(name='R14.12 sibling site: add_pilots makes the record with dict() and keywords', edits=[
+        (_T, _REC_A, "                    else:\n"
+                     "                        self._pilots[pid] = dict(role=None, state=None,\n"
+                     "                                                 pilot=None, info=dict())\n")]),
+    dict(name='R14.6 task things skipped by an explicit continue', edits=[
+        (_P, _THING_LOOP, "        for thing in things:\n\n"
+                          "            if thing.get('type') == 'task':\n"
+                          "                # task updates are handled by the tmgr\n"
+                          "                continue\n\n"
+                          "            if 'type' in thing and thing['type'] == 'pilot':\n")]),
+    dict(name='R14.6 type read into a local, non-pilots logged and skipped', edits=[
+        (_P, _THING_LOOP, "        for thing in things:\n\n"
+                          "            kind = thing.get('type')\n"
+                          "            if kind != 'pilot':\n"
+                          "                self._log.debug('pmgr ignores %s update', kind)\n"
+                          "                continue\n\n"
+                          "            if 'type' in thing and thing['type'] == 'pilot':\n")]),
+    dict(name='R14.6 kinds that are not for the pilot manager listed, skipped with continue', edits=[
+        (_P, _THING_LOOP, "        for thing in things:\n\n"
+                          "            if thing.get('type') in ['task', 'service']:\n"
+                          "                continue\n\n"
+                          "            if 'type' in thing and thing['type'] == 'pilot':\n")]),
+]
